@@ -78,6 +78,17 @@ pub fn book_export(opts: &Opts) -> i32 {
         }
         nodes[id - 1] = out;
     }
+    // the other node the public API hands out: the empty book (not reachable from the root); it has no moves, and
+    // driving its iterator must stay inside the table like any other
+    {
+        op!("book-export EMPTY_BOOK_MOVES");
+        let e = chess_lookup::EMPTY_BOOK_MOVES;
+        let n = e.into_iter().count();
+        let beyond = e.into_iter().nth(1).is_some() || e.into_iter().last().is_some() || e.into_iter().step_by(2).count() != 0;
+        if n != 0 || beyond {
+            out_line("MISMATCH", &json!({"prop": "C17", "kind": "empty-book-is-not-empty", "case": "EMPTY_BOOK_MOVES", "exp": 0, "got": n}));
+        }
+    }
     let nodes_json: Vec<Value> = nodes.iter().map(|n| json!(n.iter().map(|e| json!([e.0, e.1, e.2])).collect::<Vec<_>>())).collect();
     std::fs::write(opts.str("out", "book.json"), json!({"nodes": nodes_json, "depth": 64}).to_string()).unwrap();
     std::fs::write(opts.str("walk", "bookwalk.json"), json!(walk).to_string()).unwrap();
